@@ -163,25 +163,32 @@ def load_known(pid):
 _built = set()
 
 
-def build_harness(which="main", release=False):
-    """cargo build of the harness (path dependency on /repo => rebuilt from its working tree)."""
+def build_harness(which="main", release=False, bins=None):
+    """cargo build of the harness (path dependency on /repo => rebuilt from its working tree).
+    bins: list of binary names to build (default: all)."""
     d = HARNESS if which == "main" else HARNESS_ASYNC
-    key = (d, release)
+    key = (d, release, tuple(bins or ()))
+    out = os.path.join(d, "target", "release" if release else "debug")
     if key in _built:
-        return os.path.join(d, "target", "release" if release else "debug")
+        return out
     lock = os.path.join(d, "Cargo.lock")
     if not os.path.exists(lock):
         shutil.copy("/repo/Cargo.lock", lock)
-    cmd = ["cargo", "build", "--offline", "--bins"] + (["--release"] if release else [])
+    cmd = ["cargo", "build", "--offline"] + (["--release"] if release else [])
+    if bins:
+        for b in bins:
+            cmd += ["--bin", b]
+    else:
+        cmd += ["--bins"]
     env = dict(os.environ, CARGO_NET_OFFLINE="true")
     t = time.time()
     r = subprocess.run(cmd, cwd=d, env=env, stdout=subprocess.PIPE, stderr=subprocess.STDOUT, text=True)
     if r.returncode != 0:
         log(r.stdout[-6000:])
         raise ToolError("cargo build failed in %s" % d)
-    log("built harness %s in %.1fs" % (which, time.time() - t))
+    log("built harness %s %s in %.1fs" % (which, bins or "all", time.time() - t))
     _built.add(key)
-    return os.path.join(d, "target", "release" if release else "debug")
+    return out
 
 
 def run_bin(bindir, name, args, env=None, timeout=3600, cwd=None, ok_codes=(0,)):
